@@ -147,9 +147,9 @@ package routing
 //@ func runRouting(qIndex, inflow, lateral, initialFluxMax, storage, area, netEvapRate, deadStorage, duration, bias, routingPower, routingConstant, Qlimit, Klimit, Koffset) returns (massBalance, outflow, SIndex)
 //@   safety C11
 //@   requires duration > 0
-//@   ensures [C11.rr-index-storage] SIndex == srIndexStorage(qIndex, routingPower, routingConstant, Qlimit, Klimit, Koffset, deadStorage)
-//@   ensures [C11.rr-outflow] outflow == max(0.0, srNewStorage(storage, inflow, lateral, srEvapFlux(initialFluxMax, area, netEvapRate), duration) - SIndex) / duration && outflow >= 0
-//@   ensures [C11.rr-mass-balance] massBalance == ite(bias < 0.999, (qIndex - bias*(inflow + lateral))*duration/(1 - bias) + SIndex - srNewStorage(storage, inflow, lateral, srEvapFlux(initialFluxMax, area, netEvapRate), duration), 0.0)
+//@   ensures [C11.rr-index-storage] SIndex == min(srIndexStorage(qIndex, routingPower, routingConstant, Qlimit, Klimit, Koffset, deadStorage), srNewStorage(storage, inflow, lateral, srEvapFlux(initialFluxMax, area, netEvapRate), duration))
+//@   ensures [C11.rr-outflow] outflow == max(0.0, srNewStorage(storage, inflow, lateral, srEvapFlux(initialFluxMax, area, netEvapRate), duration) - srIndexStorage(qIndex, routingPower, routingConstant, Qlimit, Klimit, Koffset, deadStorage)) / duration && outflow >= 0
+//@   ensures [C11.rr-mass-balance] massBalance == ite(bias < 0.999, (qIndex - bias*(inflow + lateral))*duration/(1 - bias) + srIndexStorage(qIndex, routingPower, routingConstant, Qlimit, Klimit, Koffset, deadStorage) - srNewStorage(storage, inflow, lateral, srEvapFlux(initialFluxMax, area, netEvapRate), duration), 0.0)
 
 // calcOutflow with zero inflow bias (Klimit = k, Koffset = 0, Qlimit = 0 for m <= 1)
 //@ func calcOutflow(timestep, inflow, lateral, bias, prevQi, prevOutflow, prevStorage, netEvapRate, area, deadStorage, duration, routingPower, routingConstant, Qlimit, Klimit, Koffset) returns (qi, outflow, storage)
@@ -162,3 +162,19 @@ package routing
 //@   ensures [C11.sr-balance] implies(outflow > 0, storage == prevStorage + (inflow + lateral - srEvapFlux(prevStorage/duration + inflow, area, netEvapRate) - outflow)*duration)
 //@   ensures [C11.sr-balance-zero-outflow] implies(outflow == 0, storage == srNewStorage(prevStorage, inflow, lateral, srEvapFlux(prevStorage/duration + inflow, area, netEvapRate), duration))
 //@   ensures [C11.sr-no-water-created] storage + outflow*duration <= srNewStorage(prevStorage, inflow, lateral, srEvapFlux(prevStorage/duration + inflow, area, netEvapRate), duration)
+//@   ensures [C11.sr-law] implies(outflow > 0 && qi > 0 && storage > lateral*duration, storage == routingConstant*pow(qi, routingPower) + deadStorage)
+
+//@ func storageRouting(inflows, laterals, rainfall, evap, s, prevInflow, prevOutflow, bias, k, x, area, deadStorage, deltaT, outflows, storages) returns (rS, rIn, rOut)
+//@   noalias
+//@   safety C11
+//@   panics allowed
+//@   requires inflows.len == laterals.len && inflows.len == rainfall.len && inflows.len == evap.len && inflows.len == outflows.len && inflows.len == storages.len
+//@   requires forall(t, 0, inflows.len, inflows.at(t) >= 0 && laterals.at(t) >= 0)
+//@   requires abs(bias) < 0.001 && k >= 0 && 0 < x && x <= 1 && area >= 0 && deadStorage >= 0 && deltaT > 0
+//@   assigns outflows.cells, storages.cells
+//@   loop 0 invariant 0 <= i && i <= n
+//@   loop 0 invariant implies(i < n, inflows.at(i) >= 0 && laterals.at(i) >= 0)
+//@   loop 0 invariant [C11.sr-state-nonneg] storage >= 0 && outflow >= 0
+//@   loop 0 step [C11.sr-step-nonneg] outflows.at(i) >= 0 && storages.at(i) >= 0
+//@   loop 0 step [C11.sr-step-balance] storages.at(i) + outflows.at(i)*deltaT == srNewStorage(pre(storage), inflows.at(i), laterals.at(i), srEvapFlux(pre(storage)/deltaT + inflows.at(i), area, (evap.at(i) - rainfall.at(i))/deltaT), deltaT)
+//@   loop 0 step [C11.sr-step-carry] post(storage) == storages.at(i) && post(outflow) == outflows.at(i)
